@@ -149,13 +149,17 @@ def work(case):
     if "doc" not in case:
         doc, feats, rng = gen.gen_document(case["seed"], case["index"], PROFILES[case["profile"]])
         case = dict(case, doc=doc, features=feats)
+        if case.get("stream") == "bridges" and rng.random() < 0.3:
+            case["bridge_edits"] = editgen.inject_bridge_paragraph(rng, doc)
     else:
         rng = random.Random(case.get("index", 0))
     data = ooxml.write_docx(case["doc"])
     texts = engine_run.texts_of(data)
     edits = case.get("edits")
     if edits is None:
-        if case.get("stream") == "bridges":
+        if case.get("stream") == "bridges" and case.get("bridge_edits"):
+            edits = list(case["bridge_edits"])
+        elif case.get("stream") == "bridges":
             edits = editgen.gen_bridge_pair(rng, case["doc"], texts)
         if edits is None or (case.get("stream") == "bridges" and not edits):
           if case.get("stream") == "bridges":
